@@ -1307,8 +1307,16 @@ func decodeBody(body io.Reader, header http.Header, schema *openapi3.SchemaRef, 
 			contentType = "text/plain"
 		}
 	}
-	mediaType := parseMediaType(contentType)
+	mediaType := strings.TrimSpace(parseMediaType(contentType))
 	decoder, ok := bodyDecoders[mediaType]
+	if !ok {
+		// type and subtype are case-insensitive
+		if lower := strings.ToLower(mediaType); lower != mediaType {
+			if decoder, ok = bodyDecoders[lower]; ok {
+				mediaType = lower
+			}
+		}
+	}
 	if !ok {
 		return "", nil, &ParseError{
 			Kind:   KindUnsupportedFormat,
